@@ -112,6 +112,25 @@ claim("C20", "proof",
       "tier proves lengths 1-3 and MAX+1, thorough all.",
       "contract-based deductive verification on symbolic bytes + exhaustive-finite evaluation of KeyMap", "DESIGN 9/C20")
 
+claim("C02", "proof",
+      "Inductive proof over histories: the real FullscreenWindow.render_to_terminal (with on_terminal_size_change inlined) is proved, "
+      "from ANY window/terminal state satisfying the representation invariant 'same size => every cached row is displayed as cached and "
+      "the cache is empty or complete', to leave every screen row showing the array row (clipped) or blank, the cursor at cursor_pos, "
+      "no write outside the protocol (no wrap, no scroll), and the invariant re-established - so it holds after every render of every "
+      "sequence of renders and resizes (a resize falsifies the size clause, nothing is assumed about the junk it leaves). Ghost terminal "
+      "at row granularity, symbolic row cache (arrays), quantified loop invariants. Bounded stand-in: 14 740 / 110 740 histories on a "
+      "reference xterm model (+ pyte).",
+      "Assumed: blessed/xterm capability semantics at row level (validated by the bounded suite against spec/terminal.py and pyte), "
+      "height/width properties as fields, lines identified with their terminal strings (C19/C01/C06/C04 contracts).",
+      "contract-based deductive verification with a representation invariant (induction over histories) + bounded history checking", "DESIGN 9/C02")
+claim("C07", "exploration",
+      "Scroll accounting of the real CursorAwareWindow.render_to_terminal proved for every array length, height and top row (number "
+      "of scrolls, new top_usable_row, return value, cursor row) with all non-integer state abstracted; what the terminal and its "
+      "scrollback show is decided by bounded histories on a reference xterm model with scrollback (+ pyte.HistoryScreen).",
+      "Screen-shift invariant (rows and cache re-keyed per scroll, scrollback growth) is not proved deductively (DESIGN 9/C07); "
+      "scroll_down assumed to scroll exactly one line.",
+      "contract-based deductive verification of the integer bookkeeping (abstracted) + bounded history checking", "DESIGN 9/C07")
+
 ALL = [f"C{i:02d}" for i in range(1, 21)]
 NA_REASON = "check not built yet in this session (work in progress; see DESIGN.md section 9 for the plan)"
 m = dict(version=1, setup_cmd="bin/setup",
